@@ -16,6 +16,10 @@ type globGen struct {
 	nStmt  int
 	big    bool
 	decl   []string // names declared so far in the block being generated (literal glob segments prefer them)
+	// encl: per enclosing block (outermost first), the glob statements declared in it so far;
+	// the same glob text is repeated in nested, enclosing and sibling scopes on purpose (every
+	// declaration is its own glob with its own lexical scope)
+	encl [][]*LStmt
 }
 
 var (
@@ -326,7 +330,27 @@ func (g *globGen) stmts(n, depth int, boardRoot bool) []*LStmt {
 	var edges []*LStmt
 	savedDecl := g.decl
 	g.decl = nil
-	defer func() { g.decl = savedDecl }()
+	savedEncl := g.encl
+	if boardRoot {
+		g.encl = nil // another board: only *** reaches it
+	}
+	g.encl = append(append([][]*LStmt(nil), g.encl...), nil)
+	me := len(g.encl) - 1
+	defer func() { g.decl = savedDecl; g.encl = savedEncl }()
+	var sibling []*LStmt // globs declared directly inside earlier nested blocks of this block
+	cloneable := func(s *LStmt) bool {
+		if s.Tag != "glob" || (len(s.Body) > 0 && s.Body[0].Tag == "filter") {
+			return false
+		}
+		for _, l := range [][]string{s.Key, s.Src, s.Dst} {
+			for _, k := range l {
+				if k == "***" {
+					return false
+				}
+			}
+		}
+		return true
+	}
 	for i := 0; i < n; i++ {
 		g.nStmt++
 		pg := 0.22
@@ -334,7 +358,9 @@ func (g *globGen) stmts(n, depth int, boardRoot bool) []*LStmt {
 			pg = 0.15
 		}
 		if g.nGlobs < g.maxG && (r.P(pg) || (depth == 0 && i == n/2 && g.nGlobs == 0)) {
-			out = append(out, g.glob(depth))
+			gs := g.glob(depth)
+			g.encl[me] = append(g.encl[me], gs)
+			out = append(out, gs)
 			continue
 		}
 		if len(edges) > 0 && r.P(0.08) {
@@ -351,6 +377,64 @@ func (g *globGen) stmts(n, depth int, boardRoot bool) []*LStmt {
 			g.decl = append(g.decl, s.Key[0])
 		}
 		out = append(out, s)
+		if !s.IsEdge() && s.HasBody && len(s.Key) == 1 && depth < 2 {
+			// a nested block was generated
+			var inner []*LStmt
+			for _, b := range s.Body {
+				if cloneable(b) {
+					inner = append(inner, b)
+				}
+			}
+			if len(sibling) > 0 && r.P(0.2) {
+				// the same glob text in a sibling scope
+				c := LClone([]*LStmt{Pick(r, sibling)})[0]
+				at := r.Intn(len(s.Body) + 1)
+				s.Body = append(s.Body[:at:at], append([]*LStmt{c}, s.Body[at:]...)...)
+				s.Body = append(s.Body, g.explicit(depth+1))
+			}
+			if len(inner) > 0 && r.P(0.25) {
+				// the same glob text declared in the enclosing scope *after* the inner block
+				c := LClone([]*LStmt{Pick(r, inner)})[0]
+				g.encl[me] = append(g.encl[me], c)
+				out = append(out, c)
+			}
+			sibling = append(sibling, inner...)
+		}
+	}
+	if depth > 0 && !boardRoot {
+		// the same glob text as a glob of an enclosing scope (one, two or three levels up),
+		// with targets created before and after the inner declaration
+		var cands []*LStmt
+		for _, lvl := range g.encl[:me] {
+			for _, gs := range lvl {
+				if cloneable(gs) {
+					cands = append(cands, gs)
+				}
+			}
+		}
+		if len(cands) > 0 && r.P(0.45) {
+			c := LClone([]*LStmt{Pick(r, cands)})[0]
+			at := 0
+			if len(out) > 0 {
+				at = r.Range(0, len(out)-1)
+				if r.P(0.6) && len(out) > 1 {
+					at = r.Range(1, len(out)-1)
+				}
+			}
+			out = append(out[:at:at], append([]*LStmt{c}, out[at:]...)...)
+			g.encl[me] = append(g.encl[me], c)
+			if at >= len(out)-1 || r.P(0.5) {
+				// make sure something is created after the inner declaration
+				switch r.Intn(3) {
+				case 0:
+					out = append(out, &LStmt{Key: []string{g.name()}})
+				case 1:
+					out = append(out, &LStmt{Src: []string{g.name()}, Dst: []string{g.name()}, Arrow: Pick(r, []string{"->", "--", "<-"})})
+				default:
+					out = append(out, g.explicit(depth))
+				}
+			}
+		}
 	}
 	return out
 }
